@@ -34,6 +34,9 @@ checks = {
  "C06": ("exploration", "small-scope exhaustive enumeration of operator/operand sequences and spacings; expansion compared with an independent tokeniser + precedence-climbing parser, value/effects compared with the prefix form",
          "all sequences operand (op operand)^n for n=1 (17 operands x 19 operators x 4 spacings), n=2 (5 operands, 19^2 operators, 16 spacings), n=3 (level-representative operators; thorough also n=4), postfix and statement-separator variants, and 16 go-style for/if programs; (infixExpand {...}) must print exactly the tree R3 derives from the documented binding powers, and {…} must evaluate like that prefix form",
          "trusts R3 (binding powers and sign rule as stated in the property); texts containing the <- / -> operators by maximal munch are outside the table and skipped", "§3 C06"),
+ "C19": ("model_checking", "explicit-state BFS over histories of symbol creation / generation / duplication / cloning on a family of real interpreters sharing one table",
+         "all histories of depth 5 (thorough 7) over 24 operations (MakeSymbol of fixed and would-be-generated names, GenSymbol, Duplicate, Clone on members 0..2); in every state: equal names <=> equal numbers over all symbols returned, generated symbols fresh and pairwise distinct, table a bijection; plus 8 script-level programs",
+         "state key = user table entries + per-member counters + generated names, read through verif accessors; family of at most 3", "§3 C19"),
 }
 all_ids = ["C%02d" % i for i in range(1, 21)]
 pending = {i: "check not built yet in this tree (see DESIGN.md §7 build order); will be claimed when its machinery lands" for i in all_ids if i not in checks}
